@@ -21,7 +21,8 @@ EXPLANATION = (
     'first, in the middle and last, and SLN, as the evaluator calls them: a zero flow occupies a period. (C20.7) a witness '
     'workbook: XNPV equals its closed form, is linear in the flows and a plain sum at rate 0, XIRR returns the root of the '
     "closed form (scipy's secant iteration modelled by its documented algorithm) - dates as serials around 60, fractional "
-    'serials and dates built by DATE.')
+    'serials and dates built by DATE.'
+    " (C20.7) also annuity closed forms before / after / around an XIRR that does not converge (numpy's process-wide error state modelled), IRR over a row, a column and blocks.")
 NOT_DECIDED = ("numeric accuracy of numpy / numpy_financial beyond the witness rows; what scipy's iteration returns when no root exists or the "
                "iteration leaves the domain (the conversion of its RuntimeError to #NUM! is not witnessed)")
 TRUSTED = ['numpy_financial.pv/pmt/irr parameter conventions', 'scipy.optimize.newton signature', 'workbook scenarios: pandas storage of range arrays as row-major rows, numpy on Python numbers (IEEE results, 64-bit integer wrap), dateutil.parser.parse rejecting texts that are no dates, openpyxl address arithmetic, inspect.signature built from the FunctionDef', "scipy.optimize.newton without derivative = the library's secant iteration", 'pandas DataFrame from a dict of lists: column access, boolean-mask rows, stable sort_values']
